@@ -8,10 +8,12 @@
 (*   ImplHeaders  CIMMethod / CIMObject agree with the body                *)
 (* Variant = {} (repaired design) must pass; Variant = Pinned (the tree as *)
 (* originally pinned) is expected to fail (ExportIndication with a path,   *)
-(* SCOPE ANY, real keys in CIMObject); the regression flags must fail.  With Emit = TRUE the same run prints    *)
-(* the cases as JSON for the harness (the WireOps_Gen role).               *)
+(* SCOPE ANY, real keys in CIMObject); the regression flags (keephost,    *)
+(* hdr_before_default, minst_order, ns_drop_empty) must fail.  With        *)
+(* Emit = TRUE the same run prints the cases as JSON for the harness (the  *)
+(* WireOps_Gen role).                                                      *)
 (***************************************************************************)
-EXTENDS WireOpsImplOps, Json
+EXTENDS WireOpsImplOps, Json, FiniteSets
 
 CONSTANTS K, Variant, Emit
 
@@ -20,6 +22,19 @@ VARIABLE c
 Init == c \in Cases(K)
 Next == UNCHANGED c
 Spec == Init /\ [][Next]_c
+
+(* The same case space reached in two steps (start -> operation -> its      *)
+(* cases), so that TLC's workers share the evaluation (initial states are   *)
+(* computed by one thread).  States that are not cases satisfy every        *)
+(* invariant vacuously.                                                      *)
+IsCase == "args" \in DOMAIN c
+InitPar == c = [op |-> "#start"]
+NextPar == \/ /\ DOMAIN c = {"op"} /\ c.op = "#start"
+              /\ \E o \in Ops : c' = [op |-> o, stage |-> "#op"]
+           \/ /\ DOMAIN c = {"op", "stage"}
+              /\ c' \in CasesOfOp(c.op, K)
+SpecPar == InitPar /\ [][NextPar]_c
+NonCaseStates == Cardinality(Ops) + 1
 
 R == ImplReq(c, Variant)
 
@@ -31,11 +46,12 @@ AsEvent(r) ==
             ns |-> r.hdr.ns, nss |-> r.hdr.ns, cls |-> r.hdr.cls,
             keys |-> r.hdr.keys]]
 
-ImplValid == R.emit => ValidTree(R.tree)
-ImplHeaders == (R.emit /\ ValidTree(R.tree)) => HeaderFaults(AsEvent(R)) = {}
-ImplReqOk == Fails(InitState, AsEvent(R)) = {}
+ImplValid == IsCase => (R.emit => ValidTree(R.tree))
+ImplHeaders == IsCase =>
+                 ((R.emit /\ ValidTree(R.tree)) => HeaderFaults(AsEvent(R)) = {})
+ImplReqOk == IsCase => Fails(InitState, AsEvent(R)) = {}
 
-EmitInv == Emit => PrintT(<<"CASE", ToJson(c)>>)
+EmitInv == (Emit /\ IsCase) => PrintT(<<"CASE", ToJson(c)>>)
 
 ASSUME Variant \subseteq Flags
 (* every namespace value class occurs in every role of the case space *)
